@@ -58,3 +58,38 @@ def max_queue_depth(F: Facts):
         for s in q.values():
             best = max(best, len(s))
     return best
+
+
+def mixed(own, tier, pid, need_watch=False, serial_only=False):
+    """Thorough tier: besides the property's own generator profile, also draw scenarios from the profiles of the other
+    scenario-driven properties, so that every oracle sees shapes its own profile does not emphasise. Only profiles on
+    which the oracle is sound are mixed in (no firing timeouts, no stop(), no recursion beyond the guard)."""
+    from hypothesis import strategies as st
+
+    if tier != 'thorough':
+        return own
+    import importlib
+
+    others = []
+    for q in ('c01', 'c02', 'c04', 'c06', 'c08', 'c09'):
+        if q == pid.lower():
+            continue
+        m = importlib.import_module(f'bvt.props.{q}')
+        prof = getattr(m, 'P', None) or getattr(m, 'P_MAIN', None)
+        if prof is None:
+            continue
+        if serial_only and prof.par:
+            continue
+        from bvt.gen import scenario
+
+        others.append(scenario(prof))
+
+    def fix(sc):
+        sc = dict(sc)
+        if need_watch:
+            sc['watch'] = True
+        return sc
+
+    if not others:
+        return own
+    return st.integers(0, 9).flatmap(lambda k: own if k < 6 else st.one_of(*others).map(fix))
